@@ -133,15 +133,18 @@ var (
 	V IW
 )
 
-var realX, realY, realZ, realW, realV = &Impl{1000}, &Impl{2000}, &Impl{3000}, &Impl{4000}, &Impl{5000}
-var realL1, realL2 = &Impl{8000}, &Impl{9000}
+
+//go:noinline
+func mkImpl(k int) *Impl { return &Impl{K: k} }
 
 // SetInitial puts the variables into their initial state.
 func SetInitial(realImpl bool) {
 	if realImpl {
-		X, Y, Z, W, V = realX, realY, realZ, realW, realV
-		L["L1"].set(realL1)
-		L["L2"].set(realL2)
+		// fresh heap objects that nothing but the variables references: whatever holds "the value
+		// the variable held before" while it is mocked must keep them alive
+		X, Y, Z, W, V = mkImpl(1000), mkImpl(2000), mkImpl(3000), mkImpl(4000), mkImpl(5000)
+		L["L1"].set(mkImpl(8000))
+		L["L2"].set(mkImpl(9000))
 	} else {
 		X, Y, Z, W, V = nil, nil, nil, nil, nil
 		L["L1"].set(nil)
